@@ -593,7 +593,7 @@ func (engine) Minimize(raw json.RawMessage, still func(json.RawMessage) bool) js
 	}
 	var atoms []atom
 	for i := range c.Mod.Pkgs {
-		for _, f := range []string{"depfunc", "depmethod", "pure", "nonnil", "local", "ignore", "initialism", "rangeint", "ignoreu", "test", "xtest", "tagfile", "osfiles", "conf"} {
+		for _, f := range []string{"depfunc", "depmethod", "pure", "nonnil", "local", "ignore", "initialism", "rangeint", "ignoreu", "twofiles", "generic", "ifaceuse", "test", "xtest", "tagfile", "osfiles", "conf"} {
 			atoms = append(atoms, atom{i, f})
 		}
 	}
@@ -629,6 +629,23 @@ func (engine) Minimize(raw json.RawMessage, still func(json.RawMessage) bool) js
 				p.RangeInt = false
 			case "ignoreu":
 				p.IgnoreU = false
+			case "twofiles":
+				p.TwoFiles = false
+			case "generic":
+				// importers refer to it: keep if anyone imports this package
+				used := false
+				for _, q := range c2.Mod.Pkgs {
+					for _, d := range q.Imports {
+						if d == a.pkg {
+							used = true
+						}
+					}
+				}
+				if !used {
+					p.Generic = false
+				}
+			case "ifaceuse":
+				p.IfaceUse = false
 			case "test":
 				p.Test = false
 			case "xtest":
